@@ -139,6 +139,37 @@ def run_config(chk, wd, binp, name, thorough, kinds_filter=None, devmap=None, vs
     return tours
 
 
+TYPED_CFG = """SPECIFICATION Spec
+INVARIANTS TypeOK DetachedEmpty
+PROPERTIES ElemFrame NoGrow
+ACTION_CONSTRAINT Emit
+VIEW View
+CHECK_DEADLOCK FALSE
+"""
+TYPED_INIT = {"el": [0, 0], "det": "F", "ord": "absent", "ext": "T"}
+
+
+def run_typed(chk, wd, binp):
+    """ObjTyped.tla: the integer-indexed exotic object (canonical numeric string keys of a typed array)."""
+    gwd = os.path.join(wd, "typed")
+    os.makedirs(gwd, exist_ok=True)
+    with phase(chk, "tlc-typed"):
+        g, st = edges.build_graph("ObjTyped", TYPED_CFG, gwd, TYPED_INIT, obs0=TYPED_INIT, timeout=600)
+    chk.add("states", st["states"])
+    chk.add("transitions", st["transitions"])
+    ad = os.path.join(HARNESS, "adaptors", "objtyped.js")
+    with phase(chk, "replay-typed"):
+        reps, crashes = rp.run_walkers(binp, g, gwd, ["-adaptor", ad], procs=2, walks=30, walklen=30, maxtour=30, timeout=1200)
+    tot, nodes = rp.fold(chk, reps, crashes, "ObjTyped", {}, {"module": "ObjTyped"})
+    chk.add("edges_replayed", tot["covered"])
+    chk.add("distinct_nontrivial", tot["nontrivial"])
+    chk.add("evaluations", tot["steps"])
+    chk.setcov("edges_per_graph_typed", tot["edges"])
+    if tot["covered"] + tot["lost_to_known"] < tot["mine"] and not chk.violations:
+        raise Inconclusive("ObjTyped: %d of %d assigned edges not replayed" % (tot["mine"] - tot["covered"], tot["mine"]))
+    return tot["tours"]
+
+
 def run(chk, tier):
     wd = workdir("C04")
     thorough = tier == "thorough"
@@ -151,9 +182,13 @@ def run(chk, tier):
             continue
         tours += run_config(chk, wd, binp, name, thorough,
                             kinds_filter=os.environ.get("VERIF_KINDS", "").split(",") if os.environ.get("VERIF_KINDS") else None)
+    if not only or "typed" in only.split(","):
+        tours += run_typed(chk, wd, binp)
     chk.setcov("traces_validated_against_impl", tours)
     chk.setcov("exhaustive", True)
-    chk.setcov("rule", "every transition TLC generates for Obj.tla (cell: 1 object x 1 key x all 729 descriptor shapes x issuers; "
+    chk.setcov("rule", "ObjTyped.tla: every transition (7 keys: valid / out-of-range / -0 / fractional / NaN canonical numeric strings and a non-canonical "
+               "one, 162 descriptor shapes, Reflect / Object / syntax issuers, receivers, integrity levels, detach) replayed on a real Uint8Array. "
+               "Every transition TLC generates for Obj.tla (cell: 1 object x 1 key x all 729 descriptor shapes x issuers; "
                "chain: child/parent x receivers; proto: prototype surgery; order: own-key order) is replayed on real objects of "
                "each listed kind with each key mapping; non-trivial = changes the abstract state or returns a non-default result")
     chk.assumptions += ["the adaptor (harness/adaptors/obj.js) runs inside goja itself",
@@ -165,6 +200,21 @@ def replay(path):
     import subprocess
     d = json.load(open(path))
     m = d["replay"]
+    if m.get("module") == "ObjTyped":
+        wd = workdir("C04r")
+        binp = os.path.join(wd, "jsreplay")
+        go_build("jsreplay", binp)
+        r = subprocess.run([binp, "-replay", path, "-adaptor", os.path.join(HARNESS, "adaptors", "objtyped.js")], stdout=subprocess.PIPE, text=True)
+        got = json.loads(r.stdout)
+        for l in m.get("path", []):
+            print("   ", json.dumps(l))
+        print("want res=%s obs=%s" % (m.get("want_res"), m.get("want_obs")))
+        print("got  res=%s obs=%s %s" % (got.get("res"), got.get("obs"), got.get("panic", "")[:400]))
+        if got.get("obs") == m.get("want_obs") and got.get("res") == m.get("want_res"):
+            print("replay: agrees with the specification now")
+            return 0
+        print("VIOLATION property=C04 replay=%s" % path)
+        return 1
     wd = workdir("C04r")
     binp = os.path.join(wd, "jsreplay")
     go_build("jsreplay", binp)
